@@ -95,6 +95,27 @@ CLAIMED = {
             'the recorded request',
             'z3; requests replaced by a recording stub with the documented '
             'contract'),
+    'C09': ('5/C09', 'every assignment of a policy name to the layers '
+            '(registered default, main file, files of two policy '
+            'directories with sort-order traps, dot-file, sub-directory, '
+            'missing directory, JSON/YAML spelling) decided for all role '
+            'subsets: the last defining layer in the documented order '
+            'governs; the complete file-choice table',
+            'z3; real files and oslo.config; layer assignments enumerated '
+            'under solver control'),
+    'C10': ('5/C10', 'every history up to the bound of write/empty/touch/'
+            'delete/create on the main file and policy.d files, with load '
+            'and enforce, under a virtual clock: after every step the '
+            'long-lived enforcer decides as a brand-new one for every name '
+            'and all role subsets (formula equivalence), without exception',
+            'z3; modification times advance with every change (virtual '
+            'clock ahead of real time); seeded long histories in addition'),
+    'C12': ('5/C12', 'every interleaving up to the bound of load / forced '
+            'load / enforce / edit over 1-3 enforcers sharing the same '
+            'default objects: printed policy equals a loaded-once reference '
+            'after every step, shared objects keep their deep snapshot, '
+            'final decisions equal for all role subsets',
+            'z3; real files; reference = fresh enforcer loaded once'),
 }
 
 PENDING_REASON = ('check not built yet in this session (work in progress; '
